@@ -185,6 +185,10 @@ def load_findings():
             line = line.strip()
             if line:
                 ents.append(json.loads(line))
+    d = VERIF / "known_findings.d"
+    if d.exists():
+        for f in sorted(d.glob("*.json")):
+            ents.append(json.loads(f.read_text()))
     return ents
 
 
